@@ -218,6 +218,88 @@ pub fn check_real_src(c: &RealSrcCase) -> CheckResult {
     Ok(CaseInfo::new(true).class(format!("master:{}", c.master.ty().name())).class(how))
 }
 
+/// the public block cores have the same seeding routes as their `*Rng` wrappers (the wrappers
+/// delegate to them, but each route can be overridden on either side): for a generated x, seed
+/// or source, the core built through a route generates the blocks that the wrapper built through
+/// the same route hands out
+#[derive(Clone, Debug, Serialize, Deserialize)]
+pub struct CoreRouteCase {
+    /// 0 = Hc128Core, 1 = IsaacCore, 2 = Isaac64Core
+    pub which: u8,
+    /// 0 = seed_from_u64(x), 1 = from_seed(seed), 2 = from_rng(source), 3 = try_from_rng(source)
+    pub route: u8,
+    pub x: u64,
+    pub spec: SrcSpec,
+}
+
+pub fn check_core_route(c: &CoreRouteCase) -> CheckResult {
+    use rand_core::block::BlockRngCore;
+    use rand_core::{SeedableRng, TryRngCore};
+    macro_rules! go {
+        ($Core:ty, $ty:expr, $conv:expr) => {{
+            let ty: Ty = $ty;
+            let len = ty.info().seed_len;
+            let seed_bytes = c.spec.bytes(0, len);
+            let (mut core, consumed_core): ($Core, usize) = match c.route % 4 {
+                0 => (<$Core>::seed_from_u64(c.x), 0),
+                1 => {
+                    let mut seed = <$Core as SeedableRng>::Seed::default();
+                    seed.as_mut().copy_from_slice(&seed_bytes);
+                    (<$Core>::from_seed(seed), 0)
+                }
+                2 => {
+                    let mut src = ByteSrc::new(c.spec.clone());
+                    let k = <$Core>::from_rng(&mut src);
+                    (k, src.pos)
+                }
+                _ => {
+                    let mut src = FailSrc::new(c.spec.clone(), None, 7);
+                    match <$Core>::try_from_rng(&mut src) {
+                        Ok(k) => (k, src.pos),
+                        Err(e) => return Err(Fail::new(format!("C09:spurious-error:{}", stringify!($Core)), format!("try_from_rng of the core failed on a source that never fails: {}", e))),
+                    }
+                }
+            };
+            let (mut rng, consumed_rng): (Box<dyn Gen>, usize) = match c.route % 4 {
+                0 => (adapter::seed_from_u64(ty, c.x), 0),
+                1 => (adapter::from_seed(ty, &seed_bytes), 0),
+                2 => {
+                    let mut src = ByteSrc::new(c.spec.clone());
+                    let g = adapter::from_rng(ty, &mut src);
+                    (g, src.pos)
+                }
+                _ => {
+                    let mut src = FailSrc::new(c.spec.clone(), None, 7);
+                    match adapter::try_from_rng(ty, &mut src) {
+                        Ok(g) => (g, src.pos),
+                        Err(e) => return Err(Fail::new(format!("C09:spurious-error:{}", ty.name()), format!("try_from_rng failed on a source that never fails: {}", e))),
+                    }
+                }
+            };
+            if consumed_core != consumed_rng {
+                return Err(Fail::new(format!("C09:core-route-consumed:{}", stringify!($Core)), "the core and its wrapper consume a different number of source bytes through the same seeding route").exp_act(consumed_rng, consumed_core));
+            }
+            let mut res = <$Core as BlockRngCore>::Results::default();
+            for block in 0..2 {
+                core.generate(&mut res);
+                for (i, w) in res.as_ref().iter().enumerate() {
+                    let got: u64 = $conv(*w);
+                    let want = rng.next_native();
+                    if got != want {
+                        return Err(Fail::new(format!("C09:core-route:{}:{}", stringify!($Core), ["seed_from_u64", "from_seed", "from_rng", "try_from_rng"][(c.route % 4) as usize]), format!("the core seeded through this route generates other words than its wrapper seeded through the same route (block {}, word {})", block, i)).exp_act(format!("{:#x}", want), format!("{:#x}", got)));
+                    }
+                }
+            }
+            Ok(CaseInfo::new(true).class(stringify!($Core)).class(["seed_from_u64", "from_seed", "from_rng", "try_from_rng"][(c.route % 4) as usize]))
+        }};
+    }
+    match c.which % 3 {
+        0 => go!(rand_hc::Hc128Core, Ty::Hc128, |w: u32| w as u64),
+        1 => go!(rand_isaac::isaac::IsaacCore, Ty::Isaac, |w: u32| w as u64),
+        _ => go!(rand_isaac::isaac64::Isaac64Core, Ty::Isaac64, |w: u64| w),
+    }
+}
+
 pub fn def(ctx: &Ctx) -> PropDef {
     let t = ctx.tier;
     let mut subs: Vec<Box<dyn SubCheck>> = Vec::new();
@@ -253,6 +335,12 @@ pub fn def(ctx: &Ctx) -> PropDef {
             check_src,
         ));
     }
+    subs.push(PSub::boxed(
+        "core-routes",
+        t.pick(6000, 600_000),
+        || (0u8..3, 0u8..4, gens::interesting_u64(), gens::src_spec(32, 2)).prop_map(|(which, route, x, spec)| CoreRouteCase { which, route, x, spec }).boxed(),
+        check_core_route,
+    ));
     for ty in Ty::ALL {
         subs.push(PSub::boxed(
             format!("real-source/{}", ty.name()),
